@@ -578,68 +578,92 @@ func TestC11(t *testing.T) {
 		for i := range members {
 			before[i] = snapFrame(famB.members[i]) // the twin: observing the first family here could warm lazy state
 		}
+		// library state that is set up on first use (a table built lazily, a package-level map that is edited) is only ever
+		// raced for once per process: half of the cases therefore run the concurrent phase before the reference runs
+		concFirst := rapid.Bool().Draw(t, "concurrentfirst")
 		solo := make([]string, nops)
-		for i, o := range ops {
-			if perr := hx.Safely(func() { solo[i] = o.solo() }); perr != nil {
-				t.Skip("an operation panics on its own: not C11's business")
-			}
-			// the reference runs share the twin family: each of them must leave it as it was, or the later ones are no
-			// runs "alone on the same frame" (and a frame that an operation changes cannot be shared at all)
-			for j := range members {
-				if now := snapFrame(famB.members[j]); now != before[j] {
-					t.Fatalf("member %s changed while operation %d (%s) ran alone: frames that change under an operation cannot be shared\nbefore:\n%s\nafter:\n%s\n%s",
-						names[j], i, o.desc, clipS(before[j]), clipS(now), desc)
+		runSolo := func() {
+			for i, o := range ops {
+				if perr := hx.Safely(func() { solo[i] = o.solo() }); perr != nil {
+					t.Skip("an operation panics on its own: not C11's business")
+				}
+				// the reference runs share the twin family: each of them must leave it as it was, or the later ones are no
+				// runs "alone on the same frame" (and a frame that an operation changes cannot be shared at all)
+				for j := range members {
+					if now := snapFrame(famB.members[j]); now != before[j] {
+						t.Fatalf("member %s changed while operation %d (%s) ran alone: frames that change under an operation cannot be shared\nbefore:\n%s\nafter:\n%s\n%s",
+							names[j], i, o.desc, clipS(before[j]), clipS(now), desc)
+					}
 				}
 			}
 		}
+		type repOutcome struct {
+			procs   int
+			results []string
+			panics  []error
+		}
+		var outcomes []repOutcome
 		old := runtime.GOMAXPROCS(0)
 		defer runtime.GOMAXPROCS(old)
-		for rep, procs := range []int{2, 8, 16} {
-			runtime.GOMAXPROCS(procs)
-			results := make([]string, nops)
-			panics := make([]error, nops)
-			// every operation is started twice (the multiset holds each operation two times): state that one
-			// operation keeps in a shared argument, option or function value then always has a second user
-			twins := make([]string, nops)
-			twinPanics := make([]error, nops)
-			var wg sync.WaitGroup
-			start := make(chan struct{})
-			for i := range ops {
-				wg.Add(2)
-				go func(i int) {
-					defer wg.Done()
-					<-start
-					if rep == 1 && i%2 == 1 {
-						runtime.Gosched()
+		runConcurrent := func() {
+			for rep, procs := range []int{2, 8, 16} {
+				runtime.GOMAXPROCS(procs)
+				results := make([]string, nops)
+				panics := make([]error, nops)
+				// every operation is started twice (the multiset holds each operation two times): state that one
+				// operation keeps in a shared argument, option or function value then always has a second user
+				twins := make([]string, nops)
+				twinPanics := make([]error, nops)
+				var wg sync.WaitGroup
+				start := make(chan struct{})
+				for i := range ops {
+					wg.Add(2)
+					go func(i int) {
+						defer wg.Done()
+						<-start
+						if rep == 1 && i%2 == 1 {
+							runtime.Gosched()
+						}
+						panics[i] = hx.Safely(func() { results[i] = ops[i].run() })
+					}(i)
+					go func(i int) {
+						defer wg.Done()
+						<-start
+						if rep == 2 && i%2 == 0 {
+							runtime.Gosched()
+						}
+						twinPanics[i] = hx.Safely(func() { twins[i] = ops[i].run() })
+					}(i)
+				}
+				close(start)
+				wg.Wait()
+				for i := range ops {
+					if panics[i] == nil && twinPanics[i] != nil {
+						panics[i] = twinPanics[i]
 					}
-					panics[i] = hx.Safely(func() { results[i] = ops[i].run() })
-				}(i)
-				go func(i int) {
-					defer wg.Done()
-					<-start
-					if rep == 2 && i%2 == 0 {
-						runtime.Gosched()
+					if panics[i] == nil && twins[i] != results[i] {
+						results[i] = twins[i] + "\n(the second of two simultaneous runs of this operation; the first returned)\n" + results[i]
 					}
-					twinPanics[i] = hx.Safely(func() { twins[i] = ops[i].run() })
-				}(i)
+				}
+				outcomes = append(outcomes, repOutcome{procs, results, panics})
 			}
-			close(start)
-			wg.Wait()
+			runtime.GOMAXPROCS(old)
+		}
+		if concFirst {
+			runConcurrent()
+			runSolo()
+		} else {
+			runSolo()
+			runConcurrent()
+		}
+		for rep, oc := range outcomes {
 			for i := range ops {
-				if panics[i] == nil && twinPanics[i] != nil {
-					panics[i] = twinPanics[i]
+				if oc.panics[i] != nil {
+					t.Fatalf("operation %d (%s) panicked when run concurrently (repetition %d, GOMAXPROCS %d): %v\n%s", i, ops[i].desc, rep, oc.procs, oc.panics[i], desc)
 				}
-				if panics[i] == nil && twins[i] != results[i] {
-					results[i] = twins[i] + "\n(the second of two simultaneous runs of this operation; the first returned)\n" + results[i]
-				}
-			}
-			for i := range ops {
-				if panics[i] != nil {
-					t.Fatalf("operation %d (%s) panicked when run concurrently (repetition %d, GOMAXPROCS %d): %v\n%s", i, ops[i].desc, rep, procs, panics[i], desc)
-				}
-				if results[i] != solo[i] {
+				if oc.results[i] != solo[i] {
 					t.Fatalf("operation %d (%s) returned another result when run concurrently (repetition %d, GOMAXPROCS %d)\nsolo:\n%s\nconcurrent:\n%s\n%s",
-						i, ops[i].desc, rep, procs, clipS(solo[i]), clipS(results[i]), desc)
+						i, ops[i].desc, rep, oc.procs, clipS(solo[i]), clipS(oc.results[i]), desc)
 				}
 			}
 		}
